@@ -77,7 +77,7 @@ func c08(c *Ctx) {
 			}
 		}
 		// malformed parameters
-		for _, params := range []string{"", "1000", "0000100", "000010000", "0000100g", "zzzzzzzz", "00000001 "} {
+		for _, params := range []string{"", "1000", "0000100", "000010000", "0000100g", "zzzzzzzz", "00000001 ", "00000000", "01000001", "ffffffff", "80000005"} {
 			var k []byte
 			var err error
 			p, _ := guard(func() { k, err = e.StringToKey("pw", "salt", params) })
